@@ -205,7 +205,21 @@ func c03Converge(p *chk.Prog, r *chk.Report) {
 		// the result of allocateIPs becomes the held set
 		ro.Check("converge:allocation-becomes-held-set", a.Pos(), func() bool {
 			as, ok := a.Top.(*ast.AssignStmt)
-			return ok && len(as.Lhs) == 2 && f.ObjOf(as.Lhs[0]) == lbIPs
+			if !ok || len(as.Lhs) != 2 {
+				return false
+			}
+			if f.ObjOf(as.Lhs[0]) == lbIPs {
+				return true
+			}
+			// through a local of its own: `got, err := allocateIPs(..)` and, before the held set is looked at again,
+			// `lbIPs = got`
+			t, isVar := f.ObjOf(as.Lhs[0]).(*types.Var)
+			if !isVar || t.IsField() || len(assignsTo(f, t)) > 1 {
+				return false
+			}
+			isCopy := f.IsAssignPat("L", "T", L, chk.H("T", f.IsObj(t)))
+			w := g.MustPass(a, func(n ast.Node) bool { return !isCopy(n) && f.Mentions(n, lbIPs) }, false, isCopy)
+			return !w.Found && len(g.Find(isCopy)) > 0
 		}(), "", "the allocated addresses are not recorded as the held set")
 	}
 	// Assign is dominated by len(lbIPs) != 0
@@ -327,13 +341,13 @@ func c03Rehome(p *chk.Prog, r *chk.Report) {
 		return
 	}
 	g := f.Graph()
-	loops := f.RangeLoops(func(e ast.Expr) bool { return f.MatchWith("RECV.allocated", e, chk.H("RECV", isRecv(f))) != nil })
+	loops := mapWalks(f, g, func(e ast.Expr) bool { return f.MatchWith("RECV.allocated", e, chk.H("RECV", isRecv(f))) != nil })
 	if len(loops) != 1 {
 		x.Fail("SetPools:walk", f.Pos(), "expected one walk over a.allocated")
 		return
 	}
-	rs := loops[0]
-	svcK, al := rangeKey(f, rs), rangeVal(f, rs)
+	rs := loops[0].rs
+	svcK, al := loops[0].key, loops[0].val
 	pool := definedBy(g, "poolFor(RECV.pools.ByName, AL.ips)", chk.H("AL", al))
 	// a.pools = pools before the loop
 	install := f.IsAssignPat("RECV.pools", "P", chk.H("RECV", isRecv(f)), chk.H("P", isParamIdx(f, 0)))
